@@ -67,6 +67,7 @@ static inline int rxv_string_compare(const rxv_string* s, size_t pos, size_t len
 	if (pos == 0 && len >= s->size) return s->id == __CPROVER_uninterpreted_rxv_key_id(p, n) ? 0 : 1;
 	return nondet_int();
 }
+static inline int rxv_string_compare_str(const rxv_string* s, size_t pos, size_t len, const rxv_string* b) { return rxv_string_compare(s, pos, len, b->data, b->size); }
 /* observers of the abstract string: the representation invariant is id == key_id(data, size) */
 static inline size_t rxv_string_size(const rxv_string* s) { return s->size; }
 static inline size_t rxv_string_length(const rxv_string* s) { return s->size; }
